@@ -28,8 +28,27 @@ def terms_for(tier):
     return out
 
 
+def extras():
+    """shapes whose value domain is not derivable generically: (term, [(build input, expected)])"""
+    B = lambda n, s=False: ["BitsInteger", n, s, False]
+    bits = lambda s: bytes(int(c) for c in s)
+    out = []
+    for w in (1, 3, 4, 7):
+        tail = [bits("1011" * 4)[:(-w) % 8 or 8], bits("0" * ((-w) % 8 or 8)), bits(("10" * 12)[:((-w) % 8 or 8) + 8])]
+        t = ["Bitwise", ["Struct", [["a", B(w)], ["rest", ["GreedyBytes"]]]]]
+        out.append((t, [({"a": 1, "rest": x}, {"a": 1, "rest": x}) for x in tail]))
+        t2 = ["Bitwise", ["Struct", [["a", B(w, True)], ["b", ["Flag"]], ["rest", ["GreedyBytes"]]]]]
+        out.append((t2, [({"a": -1, "b": True, "rest": x[1:]}, {"a": -1, "b": True, "rest": x[1:]}) for x in tail if len(x) > 1]))
+    out.append((["Bitwise", ["Struct", [["a", B(4)], ["rest", ["GreedyRange", B(4)]]]]], [({"a": 5, "rest": [1]}, {"a": 5, "rest": [1]}), ({"a": 5, "rest": [1, 2, 3]}, {"a": 5, "rest": [1, 2, 3]})]))
+    out.append((["Bitwise", ["Sequence", [[None, B(3)], [None, B(5)], [None, ["GreedyBytes"]]]]], [([1, 2, bits("10000001")], [1, 2, bits("10000001")]), ([7, 31, b""], [7, 31, b""])]))
+    out.append((["BitsSwapped", ["Struct", [["a", ["VarInt"]], ["rest", ["GreedyBytes"]]]]], [({"a": 300, "rest": b"xyz"}, {"a": 300, "rest": b"xyz"})]))
+    return out
+
+
 def units(tier):
-    return [{"terms": [[t, tn] for t, tn in ch]} for ch in chunks(terms_for(tier), 10)]
+    us = [{"terms": [[t, tn] for t, tn in ch]} for ch in chunks(terms_for(tier), 10)]
+    us.append({"extras": True})
+    return us
 
 
 def matches(exp, got):
@@ -151,6 +170,18 @@ def run_term(t, tn, tier, r):
 
 def run_unit(unit, tier):
     r = UnitResult()
+    if unit.get("extras"):
+        for t, vals in extras():
+            d = T.mk(t)
+            tsig = T.sig_of(t, 3)
+            for vin, vexp in vals:
+                r.states += 1
+                res, vs = check_value(t, d, vin, vexp, {}, tsig)
+                r.case(nontrivial=True, outcome=res, transitions=2, validated=1)
+                for v in vs:
+                    r.violation(v["sig"], v["case"], v["detail"])
+            r.sample({"term": T.show(t), "tier": "extra", "values": len(vals)}, cap=3)
+        return r
     for t, tn in unit["terms"]:
         run_term(t, tn, tier, r)
     return r
